@@ -1,9 +1,9 @@
 package vsched
 
 import (
-	"sync/atomic"
 	"reflect"
 	"sync"
+	"sync/atomic"
 	"time"
 	"unsafe"
 
